@@ -213,10 +213,10 @@ SpecialCalls ==
 SL == {"S", "L"}
 SLH == {"S", "L", "H"}
 T4 == { <<"S", "inl", "L">>, <<"S", "ptr", "S">>, <<"L", "inl", "S">>, <<"L", "ptr", "L">> }
-QuickCalls == UnaryCalls(SL) \cup ProdCalls(SL, 2) \cup ExchCalls(AllTurns(SL), T4) \cup SpecialCalls
-FullCalls == UnaryCalls(SLH) \cup ProdCalls(SLH, 2) \cup ExchCalls(AllTurns(SLH), AllTurns(SL))
-             \cup SpecialCalls
-\* a small alphabet for exhaustive histories: one of each kind and form
+T2 == { <<"S", "ptr", "L">>, <<"L", "ptr", "L">> }
+QuickCalls == UnaryCalls(SL) \cup ProdCalls(SL, 2) \cup ExchCalls(AllTurns(SL), T2) \cup SpecialCalls
+FullCalls == UnaryCalls(SLH) \cup ProdCalls(SLH, 2) \cup ExchCalls(AllTurns(SLH), T4) \cup SpecialCalls
+\* small alphabets for exhaustive histories: one of each kind and form
 TreeCalls ==
     { Call("unary", TRUE, "inl", FALSE, 0, <<O("L", FALSE)>>, <<>>),
       Call("unary", FALSE, "inl", FALSE, 0, <<O("L", FALSE)>>, <<>>),
@@ -229,12 +229,22 @@ TreeCalls ==
       Call("exch", FALSE, "ptr", FALSE, 0, <<O("S", FALSE), O("L", FALSE)>>, <<I("S", "ptr"), I("L", "inl")>>),
       Call("exch", FALSE, "inl", FALSE, 0, <<>>, <<>>),
       Call("exch", FALSE, "ptr", FALSE, 0, <<>>, <<>>) }
+HistCalls ==
+    { Call("unary", TRUE, "inl", FALSE, 0, <<O("L", FALSE)>>, <<>>),
+      Call("unary", FALSE, "inl", FALSE, 0, <<O("L", FALSE)>>, <<>>),
+      Call("unary", FALSE, "ptr", FALSE, 0, <<O("L", FALSE)>>, <<>>),
+      Call("prod", TRUE, "inl", FALSE, 0, <<O("L", FALSE), O("L", FALSE)>>, <<>>),
+      Call("prod", FALSE, "ptr", FALSE, 0, <<O("L", FALSE), O("S", FALSE)>>, <<>>),
+      Call("exch", TRUE, "inl", FALSE, 0, <<O("L", FALSE), O("L", FALSE)>>, <<I("L", "ptr"), I("S", "inl")>>),
+      Call("exch", FALSE, "inl", FALSE, 0, <<O("L", FALSE)>>, <<I("L", "ptr")>>) }
 McCalls == UnaryCalls({"L"}) \cup ProdCalls(SL, 1) \cup ExchCalls(AllTurns(SL), {}) \cup SpecialCalls
 
 QuickSegs == { [cap |-> 1, rem |-> 0], [cap |-> 2, rem |-> 1], [cap |-> 3, rem |-> 0],
                [cap |-> 5, rem |-> 0], [cap |-> 40, rem |-> 0] }
+HistSegs == { [cap |-> 1, rem |-> 1], [cap |-> 3, rem |-> 0], [cap |-> 5, rem |-> 1] }
 McSegs == { [cap |-> 1, rem |-> 1], [cap |-> 3, rem |-> 0], [cap |-> 40, rem |-> 0] }
-FullSegs == { [cap |-> c, rem |-> r] : c \in {1, 2, 3, 4, 5, 7}, r \in {0, 1} } \cup { [cap |-> 40, rem |-> 1] }
+FullSegs == { [cap |-> c, rem |-> r] : c \in {1, 2, 3, 5}, r \in {0, 1} }
+            \cup { [cap |-> 4, rem |-> 0], [cap |-> 7, rem |-> 1], [cap |-> 40, rem |-> 1] }
 
 --------------------------------------------------------------------------
 Record(step) ==
